@@ -312,14 +312,22 @@ func vfC17Idle(rec *evid.Rec, ep int) {
 		return ok && old[i]
 	})
 	srv.srv.cleanupIdleConnections()
+	// The server notes a connection's activity after it has written the reply, so the note for the
+	// NULL above may land after the back-dating: such a connection is not idle by the server's own
+	// record and proves nothing. Only connections still tracked with a record older than the idle
+	// timeout right after the pass are survivors.
+	stillIdle := vfIdleByRecord(srv.srv, time.Hour)
 	for i, c := range cls {
 		a, closed, to := c.null(uint32(100+i), 20*time.Second)
 		if to {
 			rec.Inconclusive(1)
 			continue
 		}
-		if old[i] && a {
-			rec.Violate("C17/idle-connection-survived-cleanup", "a connection idle for 2h (IdleTimeout 1h) still answers after a cleanup pass", nil)
+		if old[i] && a && !stillIdle[c.c.LocalAddr().String()] {
+			rec.Add("idle_backdating_overtaken_by_a_late_activity_note", 1)
+		}
+		if old[i] && a && stillIdle[c.c.LocalAddr().String()] {
+			rec.Violate("C17/idle-connection-survived-cleanup", "a connection idle for 2h by the server's own record (IdleTimeout 1h) is still tracked and still answers after a cleanup pass", nil)
 		}
 		if !old[i] && closed {
 			rec.Violate("C17/active-connection-closed-by-cleanup", "a connection active just now (IdleTimeout 1h) was closed by a cleanup pass", nil)
@@ -1161,6 +1169,7 @@ func vfC17IdleThrottled(rec *evid.Rec, ep int) {
 	}
 	vfBackdateConns(srv.srv, 2*time.Hour, func(c net.Conn) bool { _, ok := local[c.RemoteAddr().String()]; return ok })
 	srv.srv.cleanupIdleConnections()
+	stillIdle := vfIdleByRecord(srv.srv, time.Hour) // tracked and idle by the server's own record after the pass
 	survived := 0
 	for i, c := range cls {
 		_, closed, to := c.null(uint32(500+i), 20*time.Second)
@@ -1168,7 +1177,7 @@ func vfC17IdleThrottled(rec *evid.Rec, ep int) {
 			rec.Inconclusive(1)
 			continue
 		}
-		if !closed {
+		if !closed && stillIdle[c.c.LocalAddr().String()] {
 			survived++
 		}
 		c.c.Close()
